@@ -42,7 +42,7 @@ CHECKS = {
              ref='DESIGN.md section 3 / C13'),
  'C15': dict(level='other', technique='message-table rules + path rules on eav_is_email/eav_setup/eav_errstr (3 backends) + monitor automata in the product with the extracted scanners',
              text='errors[] has one message per code and message i names condition i (keyword table from the enumerator names); every validator return is a describable code; on every path return 1 iff errcode NO_ERROR, errcode = -rc, idnmsg = backend strerror(result->idn_rc) iff IDN error; eav_setup leaves the code it returns; per-input truth: whenever an extracted scanner returns code E on any string of any length, the fact E names holds (joint exploration with monitor automata; early returns are checked against every extension).',
-             note='Monitors state necessary conditions of each code (e.g. TOO_MANY_DOTS => ".." occurs); "a local-part error only if the local part is invalid" is C02/C03 in the reject direction. The IDN library message table is not analysed.',
+             note='Thorough tier runs the truthfulness monitors also on is_6531_local built with RFC6531_FOLLOW_RFC5322 / RFC20 (and both) and on is_ascii_domain built with LABELS_ALLOW_UNDERSCORE (M15.1[options]). Monitors state necessary conditions of each code (e.g. TOO_MANY_DOTS => ".." occurs); "a local-part error only if the local part is invalid" is C02/C03 in the reject direction. The IDN library message table is not analysed.',
              ref='DESIGN.md section 3 / C15'),
  'C16': dict(level='other', technique='path summaries of the six e-mail functions, default and -DEAV_EXTRA variants; family establishment rule shared with C05',
              text='On every path of is_822/5321/5322_email and is_6531_email (3 backends), with and without EAV_EXTRA: flags cleared first, at most one set, set exactly when both validators succeeded and matching the branch/family established on the path, none set after a failure; rc is 0, a class (only with tld_check) or a negative code; EAV_EXTRA strings are NULL-initialised, duplicated only on success with the exact pointer differences for the two halves, and released with the record by eav_result_free.',
@@ -66,11 +66,11 @@ CHECKS = {
              ref='DESIGN.md section 3 / C10'),
  'C14': dict(level='other', technique='LLVM-IR effect facts: global definitions and mutability, base object of every store and callee write, external callee allow-list',
              text='With no mutable global, static or thread-local object defined in any library unit (all three backends), every store and every write made through a callee landing in a local, in the function\'s own allocation or behind a non-const pointer parameter, and only re-entrant externals called, two threads using their own eav_t / result / decoder objects touch disjoint memory: there is nothing to race on under any schedule.',
-             note='Thread-safety of libc and the IDN libraries is assumed as documented. Flow-insensitive base-object resolution over -O0 IR; an unattributable store is reported, not ignored.',
+             note='Thorough tier repeats all facts for the all-options-on build and the -DEAV_EXTRA build (code that exists only under an option). Thread-safety of libc and the IDN libraries is assumed as documented. Flow-insensitive base-object resolution over -O0 IR; an unattributable store is reported, not ignored.',
              ref='DESIGN.md section 3 / C14'),
  'C06': dict(level='other', technique='bundle of enumerate-and-justify rules: scanner memory safety and progress by exhaustive automaton exploration with out-of-range reads as violations; pointer-provenance def-use on every path of the non-scanner code; buffer-bound guards; abort-site, allocation-pairing, loop and store-target rules',
              text='Not a proof of absence of all undefined behaviour. Every dangerous construct of each kind is enumerated from the current source and must be justified by a recognised guard: (R6.2s) for all seven scanners, on every input of every length, no read before the first byte or past the terminator and every iteration advances (Engine B, exhaustive); (R6.2p) every pointer given to a NUL-scanning libc function, to the library\'s own validators, copied from or dereferenced with an offset derives from the input within [first byte, terminator] on every path; (R6.3) every write into a local array is bounded below its size; (R6.1) no eav_t field read before eav_init wrote it; (R6.6) abort sites are exactly the known unreachable ones; (R6.7) records and converter buffers are paired; (R6.8) loops progress without hidden quadratic libc calls; (R14.x) stores stay in caller-owned or local memory.',
-             note='One frozen invariant is used and named in the evidence: in is_special_domain a strchr(_, ".") result used without NULL test is justified by the counting loop (C09 R9.4). Not decided: signed overflow for inputs above 2^31 bytes, anything inside libc / the IDN library; linear time is argued from one-pass progress, not measured.',
+             note='Thorough tier additionally explores is_6531_local and is_ascii_domain as compiled under all 7 non-default combinations of the three make options (R6.2s[options], 28 explorations). One frozen invariant is used and named in the evidence: in is_special_domain a strchr(_, ".") result used without NULL test is justified by the counting loop (C09 R9.4). Not decided: signed overflow for inputs above 2^31 bytes, anything inside libc / the IDN library; linear time is argued from one-pass progress, not measured.',
              ref='DESIGN.md section 3 / C06'),
  'C17': dict(level='model_checking', technique='make dry-run diffs over all 8 option combinations + preprocessor identity of every other unit + automata extracted under the options compared with option-specific specifications / sibling scanners',
              text='R17.1: OPTION=ON adds exactly -DOPTION. R17.2: every unit except the documented one preprocesses byte-identically under all 8 combinations and the macros occur nowhere else, which proves that every other decision is unchanged without looking at any input. O17.3: under RFC20 the 6531 scanner equals the 5321+UTF-8 specification minus the seven RFC 20 graphics outside quotes; under RFC5322 it agrees with the extracted is_5322_local on every pure-ASCII string (both with the other option at both values); under UNDERSCORE is_ascii_domain satisfies the C04 rules with _ as a letter.',
